@@ -3,7 +3,7 @@
    represents the model's [hstate], which objects a method may change, and the four method
    specifications every class has to satisfy.  The hasher object is the root object (prefix ""). *)
 From Coq Require Import ZArith NArith List String Bool.
-From Wencry Require Import Bytes HashModel MiniC MiniCRun SrcRun.
+From Wencry Require Import Bytes HashModel MiniC MiniCRun MiniCLemmas SrcRun.
 From Wencry.Gen Require Src_sha256 Src_sha1 Src_md5 Src_hashmaster Src_hashbuffer.
 Import ListNotations.
 Local Open Scope string_scope.
@@ -24,13 +24,22 @@ Definition shaped (t : ity) (n : Z) (o : object) : Prop := o_ty o = t /\ Z.of_na
 Definition scratch_ok (objs : list (string * ity * Z)) (m : memory) : Prop :=
   forall name t n, In (name, t, n) objs -> exists o, mget m name = Some o /\ shaped t n o.
 
-(* names a hasher method may create or change: its own members, local arrays (%...), heap temporaries (#...) *)
+(* VERSION 2 of the contract (heap objects).  Names a hasher method may create or change: its own members, local arrays
+   (%...), and NEW heap temporaries: `new u8_t[n]` creates the object heap_name (fresh s) = "#<fresh s>" and increments
+   fresh.  Heap objects that exist when the method is called (heap_name n with n < fresh s) are NOT touched, and may be the
+   input / output buffers (hmac::getres keeps key1, h1, h2, hmac_res in such objects). *)
 Definition is_prefix (p s : string) : bool := String.prefix p s.
 Local Open Scope list_scope.
 Definition hash_owned (k : string) : bool :=
   existsb (String.eqb k) ["h"; "totalsize"; "s"; "w"]%list || is_prefix "%" k || is_prefix "#" k.
 Definition frame (owned : string -> bool) (m m' : memory) : Prop :=
   forall k, owned k = false -> mget m' k = mget m k.
+(* an object a caller may pass: not one of the hasher's, or a heap object allocated before the call *)
+Definition old_heap (s : state) (k : string) : Prop := exists n, (n < fresh s)%nat /\ k = heap_name n.
+Definition passable (s : state) (k : string) : Prop := hash_owned k = false \/ old_heap s k.
+(* heap objects allocated before the call keep their contents *)
+Definition heap_kept (s s' : state) : Prop :=
+  forall n, (n < fresh s)%nat -> mget (mem s') (heap_name n) = mget (mem s) (heap_name n).
 
 (* everything of the state a call leaves alone besides memory (call restores loc and pre itself) *)
 Definition same_io (s s' : state) : Prop :=
@@ -60,23 +69,23 @@ Variable F : nat.
 (* reset(): from any well-shaped hasher to the initial state *)
 Definition spec_reset : Prop := forall s st fuel, (F <= fuel)%nat -> pre s = "" -> hasher_ok st (mem s) ->
   exists s', call hash_prog vt fuel (cls ++ "::reset/0") "" [] s = Ok (None, s') /\
-             hasher_ok (reset a) (mem s') /\ frame hash_owned (mem s) (mem s') /\ same_io s s'.
+             hasher_ok (reset a) (mem s') /\ frame hash_owned (mem s) (mem s') /\ heap_kept s s' /\ same_io s s'.
 
 (* getHash(input): one 64-byte block read from object o at offset off (o is not one of the hasher's own objects) *)
 Definition spec_block : Prop := forall s st fuel o off blk, (F <= fuel)%nat -> pre s = "" -> hasher_ok st (mem s) ->
-  hash_owned o = false -> bytes_at (mem s) o off blk -> List.length blk = 64%nat -> bytesb blk = true ->
+  passable s o -> bytes_at (mem s) o off blk -> List.length blk = 64%nat -> bytesb blk = true ->
   exists s', call hash_prog vt fuel (cls ++ "::getHash/1") "" [VPtr o off] s = Ok (None, s') /\
-             hasher_ok (getHash_block a st blk) (mem s') /\ frame hash_owned (mem s) (mem s') /\ same_io s s'.
+             hasher_ok (getHash_block a st blk) (mem s') /\ frame hash_owned (mem s) (mem s') /\ heap_kept s s' /\ same_io s s'.
 
 (* getHash(input, n): the final n < 64 bytes *)
 Definition spec_final : Prop := forall s st fuel o off inp, (F <= fuel)%nat -> pre s = "" -> hasher_ok st (mem s) ->
-  hash_owned o = false -> bytes_at (mem s) o off inp -> (List.length inp < 64)%nat -> bytesb inp = true ->
+  passable s o -> bytes_at (mem s) o off inp -> (List.length inp < 64)%nat -> bytesb inp = true ->
   exists s', call hash_prog vt fuel (cls ++ "::getHash/2") "" [VPtr o off; VInt (Z.of_nat (List.length inp))] s = Ok (None, s') /\
-             hasher_ok (getHash_final a st inp) (mem s') /\ frame hash_owned (mem s) (mem s') /\ same_io s s'.
+             hasher_ok (getHash_final a st inp) (mem s') /\ frame hash_owned (mem s) (mem s') /\ heap_kept s s' /\ same_io s s'.
 
 (* getres(out): the digest is written to the first ha_hlen bytes of object out at offset off; nothing else changes *)
 Definition spec_getres : Prop := forall s st fuel o off old, (F <= fuel)%nat -> pre s = "" -> hasher_ok st (mem s) ->
-  hash_owned o = false -> bytes_at (mem s) o off old -> List.length old = ha_hlen a ->
+  passable s o -> bytes_at (mem s) o off old -> List.length old = ha_hlen a ->
   exists s', call hash_prog vt fuel (cls ++ "::getres/1") "" [VPtr o off] s = Ok (None, s') /\
              bytes_at (mem s') o off (ha_out a (hs_h st)) /\ hasher_ok st (mem s') /\
              (forall k, k <> o -> mget (mem s') k = mget (mem s) k) /\
